@@ -71,7 +71,8 @@ PROPS = {
     },
     "C13": {
         "level": "proof",
-        "lean_targets": ["LP.Props.C13"],
+        "lean_targets": ["LP.Props.C13", "LP.Props.GenTables"],
+        "gen_tables": True,
         "harnesses": [{"name": "h_fset", "quick": 3000, "thorough": 40000, "thorough_env": {"LPV_EXH4": "1"}}],
         "select": lambda t: t[1] == "fset",
         "nontrivial": lambda t, r: t[2] in ("intersect", "add", "icmp", "contains", "pick", "countint", "containsint"),
